@@ -203,7 +203,35 @@ def run_go_part(prop, part, tier, seed, builddir, reportdir):
         # The test process died before writing its report.
         m = CRASH_RE.search(res.log)
         timed_out = "test timed out after" in res.log or rc == -9
-        if timed_out and part.get("hang_is_violation"):
+        lockwait = None
+        if timed_out and part.get("lockwait_is_violation"):
+            # Goroutines that the dump shows waiting for a lock for minutes with
+            # a function of the product (not of the harness) on the stack.
+            for g in res.log.split("\n\n"):
+                g = g.strip()
+                mh = re.match(r"goroutine \d+ [^\[]*\[(?:sync\.(?:RW)?Mutex\.R?Lock|semacquire)[^\]]*, (\d+) minutes\]", g)
+                if mh:
+                    mins = int(mh.group(1))
+                elif re.match(r"goroutine \d+ [^\[]*\[sync\.(?:RW)?Mutex\.R?Lock, synctest group \d+\]", g):
+                    # (Inside a testing/synctest bubble the dump gives no
+                    # waiting time; the histories there run on one goroutine.)
+                    mins = tmo // 60
+                else:
+                    continue
+                lines = g.split("\n")
+                for i in range(1, len(lines) - 1, 2):
+                    fm = re.search(r"AdGuardHome/internal/([\w/]+)\.([\w\.\(\)\*]+)\(", lines[i])
+                    if fm and "_test.go" not in lines[i + 1] and "verif" not in fm.group(2).lower():
+                        lockwait = ("%s.%s" % fm.groups(), g[:3000], mins)
+                        break
+                if lockwait:
+                    break
+        if lockwait:
+            res.crash_violations.append({
+                "key": "deadlock:" + lockwait[0],
+                "what": "monitor process did not finish within its watchdog (%ds): a goroutine has been waiting for a lock inside the product for %d minutes" % (tmo, lockwait[2]),
+                "witness": {"waiting_goroutine": lockwait[1]}})
+        elif timed_out and part.get("hang_is_violation"):
             res.crash_violations.append({
                 "key": "hang:" + part["name"],
                 "what": "monitor process did not finish within its watchdog (%ds); goroutine dump in witness" % tmo,
